@@ -34,7 +34,7 @@ def pa_instantiation(facts, owner, field='phase_accumulator'):
     adt = facts.adt(owner)
     for f in adt['variants'][0]['fields']:
         if f['name'] == field:
-            if f['ty'].get('path') != PA:
+            if f['ty'].get('path', '').split('::')[-1] != PA.split('::')[-1]:
                 raise InterpError('%s.%s is not a PhaseAccumulator any more' % (owner, field))
             vals = []
             for a in f['ty']['args']:
@@ -75,6 +75,7 @@ def clamp_range(facts, conv_path):
 class Dds:
     def __init__(self, facts):
         self.facts = facts
+        _FACTS[0] = facts
         self.tp_range = None
         self.sl_range = None
 
@@ -295,8 +296,13 @@ def fraction_term(dds, total, index):
     return outs[0].ret.term
 
 
+_FACTS = [None]
+
+
 def tbl(name, idx):
-    return Poly.atom(('tbl', name, as_poly(idx)))
+    # the table may have moved to another private module: use the path the code itself refers to
+    real = _FACTS[0].real('table', name) if _FACTS[0] is not None else name
+    return Poly.atom(('tbl', real, as_poly(idx)))
 
 
 def check_calc_value(res, facts, prop):
